@@ -147,8 +147,12 @@ def script_pop_on(rng, tx, ncap):
                 c = rng.randrange(7) if (colour not in (0, 7) or rng.random() < 0.7) else 7
                 tx.midrow(c, rng.randrange(2))
                 tx.text(words(rng, rng.randrange(2, 5), end_space=False))
-            if rng.random() < 0.1:
-                tx.special(rng.choice([0, 1, 2, 3, 4, 5, 6, 7, 8, 10, 11, 12, 13, 14, 15]))
+            if rng.random() < 0.25:
+                # special characters, also in the middle of a row (refines_Eia608_scripts_popon_special)
+                for _ in range(rng.randrange(1, 3)):
+                    tx.special(rng.choice([0, 1, 2, 3, 4, 5, 6, 7, 8, 10, 11, 12, 13, 14, 15]))
+                if rng.random() < 0.5:
+                    tx.text(words(rng, rng.randrange(1, 4), end_space=False))
             if rng.random() < 0.15:
                 tx.fetch()
         if rng.random() < 0.3:
@@ -177,6 +181,10 @@ def script_roll_up(rng, tx, nlines, force_pac=False):
         if rng.random() < 0.5:
             tx.pac(base, indent=rng.choice([0, 0, 4]))
         t = words(rng, rng.randrange(3, 30))
+        if rng.random() < 0.25 and len(t) < 28:
+            # special characters at the head of the line (refines_Eia608_scripts_rollup_special)
+            for _ in range(rng.randrange(1, 3)):
+                tx.special(rng.choice([0, 1, 2, 3, 4, 5, 6, 7, 8, 10, 11, 12, 13, 14, 15]))
         tx.text(t)
         if len(t) % 2 == 0 and rng.random() < 0.6:
             tx.fetch()
@@ -241,6 +249,9 @@ def script_paint_on(rng, tx, nrows):
         t = words(rng, rng.randrange(3, 16))
         if len(t) % 2:
             t = t[:-1] + [0x41, 0x20]
+        if rng.random() < 0.3:
+            for _ in range(rng.randrange(1, 3)):
+                tx.special(rng.choice([0, 1, 2, 3, 4, 5, 6, 7, 8, 10, 11, 12, 13, 14, 15]))
         tx.text(t)
         tx.fetch()
         tx.cut()
@@ -440,6 +451,38 @@ def interleave(rng, streams):
         idx[i] += 1
 
 
+def xds_packet(rng):
+    """an XDS packet for field 2: start / continue pair (class 0x01..0x0E, type), data pairs, and - two times in three - the end
+    pair 0x0F + checksum; otherwise the packet is left open, to be interrupted by the caption control code that follows"""
+    lines = ["cc 1 %02x%02x" % (par(rng.randrange(1, 0x0F)), par(rng.randrange(1, 0x70)))]
+    for _ in range(rng.randrange(0, 7)):
+        lines.append("cc 1 %02x%02x" % (par(rng.randrange(0x20, 0x80)), par(rng.randrange(0x20, 0x80))))
+    if rng.random() < 0.66:
+        lines.append("cc 1 %02x%02x" % (par(0x0F), par(rng.randrange(0x80))))
+    return lines
+
+
+def xds_lines(case):
+    """indices of the op lines that belong to XDS by the standard's interleaving rule (EIA-608-B 9.x): on field 2 a pair with
+    first byte 0x01..0x0E opens / continues a packet, 0x0F closes it, a caption control code 0x10..0x1F suspends it; all other
+    pairs belong to XDS while a packet is open"""
+    out, xds = set(), False
+    for i, l in enumerate(case):
+        t = l.split()
+        if len(t) != 3 or t[0] != "cc" or t[1] != "1" or len(t[2]) != 4:
+            continue
+        c1 = int(t[2][:2], 16) & 0x7F
+        if 1 <= c1 <= 0x0E:
+            xds = True; out.add(i)
+        elif c1 == 0x0F:
+            xds = False; out.add(i)
+        elif 0x10 <= c1 <= 0x1F:
+            xds = False
+        elif xds:
+            out.add(i)
+    return out
+
+
 def merge_fields(rng, a, b):
     """two lists of op lines (one per field) interleaved line by line, each keeping its order"""
     out, i, j = [], 0, 0
@@ -451,8 +494,13 @@ def merge_fields(rng, a, b):
     return out
 
 
-def field_script(rng, f, services, force_pac=False):
-    """services: list of (k, kind) for one field -> flat op lines"""
+def starts_with_control(unit):
+    t = unit[0].split() if unit else []
+    return len(t) == 3 and t[0] == "cc" and len(t[2]) == 4 and 0x10 <= (int(t[2][:2], 16) & 0x7F) <= 0x1F
+
+
+def field_script(rng, f, services, force_pac=False, xds=False):
+    """services: list of (k, kind) for one field -> flat op lines; `xds` (field 2): XDS packets between the units"""
     streams = []
     for k, kind in services:
         tx = Tx(rng, f, k)
@@ -472,17 +520,72 @@ def field_script(rng, f, services, force_pac=False):
             script_text(rng, tx, rng.randrange(1, 20))
         tx.cut()
         streams.append(tx.ops)
-    return [l for u in interleave(rng, streams) for l in u]
+    units = interleave(rng, streams)
+    if xds:
+        # every unit starts with a caption control code (mode / resume command), which suspends an open packet
+        units = [x for u in units for x in (([xds_packet(rng)] if starts_with_control(u) and rng.random() < 0.6 else []) + [u])]
+    return [l for u in units for l in u]
 
 
 END_DUMP = ["st %d" % i for i in range(9)] + ["glob"]
-NOREF = ("margin", "ru-depth")      # classes judged without the reference display (invariants, events, crashes only)
+
+# ---- the character repertoire of 47 CFR 15.119 (g) and EIA-608-B 6.4.2, typed as characters
+STD_BASIC_SUBST = {0x2A: "á", 0x5C: "é", 0x5E: "í", 0x5F: "ó", 0x60: "ú", 0x7B: "ç", 0x7C: "÷", 0x7D: "Ñ", 0x7E: "ñ", 0x7F: "■"}
+STD_SPECIAL = "®°½¿™¢£♪à èâêîôû"
+STD_EXT2 = "ÁÉÓÚÜü‘¡*'—©℠•“”ÀÂÇÈÊËëÎÏïÔÙùÛ«»"
+STD_EXT3 = "ÃãÍÌìÒòÕõ{}\\^_|~ÄäÖöß¥¤│ÅåØø┌┐└┘"
+assert len(STD_SPECIAL) == 16 and len(STD_EXT2) == 32 and len(STD_EXT3) == 32
+# accepted deviation (NOTES round 5): "em dash" 0x12 0x2A is returned as U+2500 so that it joins the corner pieces
+STD_ACCEPTED = {0x122A: "\u2500"}
+
+
+def std_caption_char(c, up):
+    """what vbi_caption_unicode(c, up) has to return by the standard's chart (0 = not a character)"""
+    if c < 0x80:
+        ch = STD_BASIC_SUBST.get(c, chr(c)) if c >= 0x20 else None
+    else:
+        c &= 0xFFFFFFFF & ~0x0800           # the data-channel bit of the first byte does not select a character
+        hi, lo = c >> 8, c & 0xFF
+        if hi == 0x11 and 0x30 <= lo <= 0x3F:
+            ch = STD_SPECIAL[lo - 0x30]
+        elif hi == 0x12 and 0x20 <= lo <= 0x3F:
+            ch = STD_ACCEPTED.get(c, STD_EXT2[lo - 0x20])
+        elif hi == 0x13 and 0x20 <= lo <= 0x3F:
+            ch = STD_EXT3[lo - 0x20]
+        else:
+            ch = None
+    if ch is None:
+        return 0
+    if up and len(ch.upper()) == 1:         # Python's Unicode data base; sharp s has no single upper-case character
+        ch = ch.upper()
+    return ord(ch)
+
+
+def field_of_line(l):
+    """which field's stream an op line belongs to: 0 / 1, 2 = both (channel switch), None = neither / unknown"""
+    t = l.split()
+    try:
+        if t[0] == "cc" and len(t) == 3 and t[1] in ("0", "1"):
+            return int(t[1])
+        if t[0] == "fetch" and len(t) == 2 and 1 <= int(t[1]) <= 8:
+            return ((int(t[1]) - 1) >> 1) & 1
+        if t[0] in ("st",) and len(t) == 2 and 0 <= int(t[1]) <= 7:
+            return (int(t[1]) >> 1) & 1
+        if t[0] in ("raw", "tail") and len(t) == 3 and 0 <= int(t[1]) <= 7 and t[2] in ("0", "1"):
+            return (int(t[1]) >> 1) & 1
+        if l == "chsw":
+            return 2
+    except ValueError:
+        pass
+    return None
+NOREF = ("margin", "ru-depth", "caption-unicode")      # classes judged without the reference display (invariants, events, crashes only)
 
 
 class C08(verif.Spec):
     prop = "C08"
     comp = "cc"
-    lean_modules = ["ZvbiModel.Props.C08", "ZvbiModel.Props.C08Paint"]
+    lean_modules = ["ZvbiModel.Props.C08", "ZvbiModel.Props.C08Paint", "ZvbiModel.Props.C08Fields", "ZvbiModel.Props.C08Lang",
+                    "ZvbiModel.Props.C08Special"]
     harness = "cc_harness"
     harness_link_lib = True
     timeout_per_case = 5.0
@@ -493,15 +596,19 @@ class C08(verif.Spec):
                     "roll-up / text mode are proved (refines_Eia608_edits_partial) and checked up to solid spaces, which 15.119 (d)(1) leaves to the "
                     "decoder; the unrestricted refinement statement is false "
                     "(F46, proved counterexample), the unrestricted event statement is false without the two F45 repairs and proved with them; "
-                    "XDS/ITV side of caption.c is not modelled")
+                    "special characters inside pop-on / roll-up / paint-on scripts are proved at channel level (refines_Eia608_scripts_*_special), not at "
+                    "byte level; the two fields are separated at trace level for the per-field curr_chan (fields_independent_trace / _full / _fetch); "
+                    "vbi_caption_unicode is proved against the standard's chart with one accepted deviation (em dash 0x12 0x2A as U+2500); "
+                    "xds_separator / itv_separator themselves are not modelled (only the cc->xds gate)")
     assumptions = ["nul_ct and the event counter do not overflow (2^31 null pairs)",
                    "vbi_decode is called with monotone frame times (no time-gap initiated channel switch)"]
     open_statements = ["Zvbi.Props.C08.refines_Eia608_full (false: refines_Eia608_counterexample, F46; true instances: refines_Eia608_scripts_*)",
                        "Zvbi.Props.C08.event_on_change_full (false on a tree without the F45 repairs: event_on_change_counterexample; "
-                       "proved with them: event_on_change_repaired)",
-                       "Zvbi.Props.C08Paint.fields_independent_full (false with the shared curr_chan: fields_independent_counterexample, F44; "
-                       "for the per-field curr_chan the one-step frame fields_independent_partial is proved, the trace-level projection is not)"]
-    trusted_base = ["translate/gen_cc.py (constants, tables, eight source facts: chsw statement order, PAC window clamp, RUx clear(), CR update guard, "
+                       "proved with them: event_on_change_repaired)"]
+    trusted_base = ["translate/gen_cclang.py (the four character tables with both columns, every comparison / mask / index offset of vbi_caption_unicode; "
+                    "cross-checked by the `cu` sweep of the correspondence run)",
+                    "Cc/SpecChars.lean + STD_* of checks/C08.py: two transcriptions of the character chart of 15.119 (g) / EIA-608-B 6.4.2",
+                    "translate/gen_cc.py (constants, tables, eight source facts: chsw statement order, PAC window clamp, RUx clear(), CR update guard, "
                     "mid-row italics colour, curr_chan per field, EDM/ENM re-addressed to the caption channel, curr_chan reset on channel switch; constants cross-checked by `layout`/`st`/`glob`, the facts by the correspondence run)",
                     "harness/cc_harness.c + lean/Driver/Cc.lean (correspondence incl. internal scalars of all nine channels)",
                     "Cc/Spec.lean Eia608: my transcription of 47 CFR 15.119; solid-space rule as libzvbi lays it out"]
@@ -517,6 +624,15 @@ class C08(verif.Spec):
             if wf:
                 self._wf["\n".join(c)] = wf
         add(["layout"] + END_DUMP + ["fetch %d" % i for i in (-1, 0, 1, 8, 9)] + ["tail 4 0", "raw 8 1"])
+        # 0. vbi_caption_unicode: every code two 7/8-bit bytes can form, both columns, plus 32-bit arguments
+        for base in range(0, 0x2000, 0x400):
+            add(["cu %08x %d" % (c, u) for c in range(base, base + 0x400) for u in (0, 1)], "caption-unicode")
+        edge = [0x2000, 0x1fff, 0x1b40, 0x1b3f, 0x1340, 0x1a40, 0x9130, 0x11130, 0xffff, 0x10020, 0x10041, 0x80000041, 0x7fffffff,
+                0x80000000, 0xffffffff, 0xfffff7ff, 0xffff1130, 0x80001930, 0x1130 << 8, 0x0920, 0x0820, 0x087f, 0x0100]
+        edge += [rng.getrandbits(32) for _ in range(300)] + [rng.getrandbits(14) | (rng.getrandbits(1) << 31) for _ in range(100)]
+        add(["cu %08x %d" % (c, rng.randrange(2)) for c in edge] +
+            ["cu", "cu 41 0", "cu 00000041", "cu 00000041 2", "cu 0000004g 0", "cu 0000000041 1", "cu 00000041 -1", "cu - 0"],
+            "caption-unicode")
         kinds = ["pop", "roll", "paint", "text"]
         # 1. one service
         for _ in range(260 * N):
@@ -563,6 +679,15 @@ class C08(verif.Spec):
             # half of them with a pop-on caption of the same data channel on display: EDM must erase THAT
             sv = [(k, "textedm")] if rng.random() < 0.5 else [(k, "pop"), (k, "textedm")]
             add(LEN + field_script(rng, f, sv) + END_DUMP, "text-edm")
+        # 3d. XDS packets on field 2 between the units of caption / text services of field 2 (closed by 0x0F or left open and
+        #     suspended by the next caption control code): the captions must be those of the script without the packets
+        for _ in range(50 * N):
+            sv = rng.sample([(0, "cap"), (1, "cap"), (0, "text"), (1, "text")], rng.randrange(1, 3))
+            sv = [(k, rng.choice(kinds[:3]) if c == "cap" else "text") for k, c in sv]
+            b = field_script(rng, 1, sv, xds=True)
+            if rng.random() < 0.4:
+                b = merge_fields(rng, field_script(rng, 0, [(sv[0][0], sv[0][1])]), b)
+            add(b + END_DUMP, "xds-gate")
         # 4. both fields, different channel bit or class: finding F18 expected
         for _ in range(20 * N):
             k = rng.randrange(2)
@@ -727,10 +852,16 @@ class C08(verif.Spec):
         self._expect = {}
         wf = [c for c in cases if self._wf.get("\n".join(c), "margin") not in NOREF]
         if wf:
-            p = subprocess.run([verif.model_exe(), "cc608"], input=verif.flatten(wf).encode(), stdout=subprocess.PIPE, timeout=1200)
+            drop = [xds_lines(c) if self._wf.get("\n".join(c)) == "xds-gate" else set() for c in wf]
+            fed = [[l for j, l in enumerate(c) if j not in d] for c, d in zip(wf, drop)]
+            p = subprocess.run([verif.model_exe(), "cc608"], input=verif.flatten(fed).encode(), stdout=subprocess.PIPE, timeout=1200)
             outs = verif.split_cases(p.stdout.decode())
             for i, c in enumerate(wf):
-                self._expect["\n".join(c)] = outs.get(i, [])
+                o = list(outs.get(i, []))
+                if drop[i] and len(o) == len(fed[i]):
+                    it = iter(o)
+                    o = ["ok xds" if j in drop[i] else next(it) for j in range(len(c))]
+                self._expect["\n".join(c)] = o
         return cases
 
     def classify(self, case):
@@ -762,6 +893,12 @@ class C08(verif.Spec):
         for op, o in zip(case, out):
             if o.startswith("rej oob"):
                 return "harness reports out-of-bounds"
+            if op.startswith("cu ") and o.startswith("ok "):
+                t = op.split()
+                want = std_caption_char(int(t[1], 16), t[2] == "1")
+                if int(o[3:], 16) != want:
+                    return "caption_unicode: code %x (to_upper=%s) gives U+%04X, the standard's chart has U+%04X" % (
+                        int(t[1], 16), t[2], int(o[3:], 16), want)
             if op.startswith("st ") and o.startswith("ok mode="):
                 d = dict(x.split("=") for x in o.split()[1:])
                 col, col1, row, row1, roll = (int(d[x]) for x in ("col", "col1", "row", "row1", "roll"))
@@ -923,11 +1060,62 @@ class C08(verif.Spec):
         return re.sub(r"\d+", "N", what.split(":")[0])
 
     # ---------------------------------------------------------------- impl-only probes
+    def projection_probe(self, ctx):
+        """fields_independent_full on the REAL code: a history with pairs of both fields is run again with the ops of one
+        field only (its pairs, the fetches / dumps of its pages and channels, every channel switch); every output line the
+        sub-history keeps must be identical (events, fetched pages incl. dirty region, scalars, raw memories; of `glob`
+        the part the field owns).  Known finding F44 (shared curr_chan) would show here."""
+        res = []
+        cand = [c for c in ctx["cases"] if any(l.startswith("cc 0 ") for l in c) and any(l.startswith("cc 1 ") for l in c)]
+        if not cand:
+            return res
+        n = 150 if ctx["tier"] == "quick" else 1200
+        step = max(1, len(cand) // n)
+        cand = cand[::step][:n]
+        full, _inc = verif.run_side(ctx["hcmd"], cand, 5.0)
+        subs, keep = [], []
+        for ci, c in enumerate(cand):
+            for f in (0, 1):
+                idx = [i for i, l in enumerate(c) if field_of_line(l) in (f, 2) or l == "glob"]
+                subs.append([c[i] for i in idx]); keep.append((ci, f, idx))
+        sub_out, inc = verif.run_side(ctx["hcmd"], subs, 5.0)
+        for x in inc[:3]:
+            res.append(("crash of the real code on a one-field sub-history (%s)" % verif.summarize_san(x["detail"]), subs[x["case"]]))
+        bad = set(x["case"] for x in inc)
+
+        def own(l, f):
+            # of `glob`: last[] belongs to field 1, curr_chan[f] to field f, the XDS gate to field 2
+            m = re.match(r"ok last=(\w+) curr=(\d+)(?:,(\d+))? xds=(\d)$", l)
+            if not m:
+                return l
+            if m.group(3) is None:
+                return l        # shared selector: compared as a whole (finding F44 territory)
+            return "last=%s curr=%s" % (m.group(1), m.group(2)) if f == 0 else "curr=%s xds=%s" % (m.group(3), m.group(4))
+        self.projection_runs = 0
+        for si, (ci, f, idx) in enumerate(keep):
+            if si in bad:
+                continue
+            a, b = full.get(ci, []), sub_out.get(si, [])
+            if len(a) != len(cand[ci]) or len(b) != len(idx):
+                continue
+            self.projection_runs += 1
+            for k, i in enumerate(idx):
+                if own(a[i], f) != own(b[k], f):
+                    res.append(("fields_independent: field %d, `%s` answers differently after the whole history and after the field's own "
+                                "sub-history (%s / %s)" % (f + 1, cand[ci][i].split()[0], a[i][:60], b[k][:60]), cand[ci][:i + 1]))
+                    break
+            if len(res) >= 3:
+                break
+        if os.environ.get("C08_VERBOSE"):
+            print("projection probe: %d one-field sub-histories compared" % self.projection_runs)
+        return res
+
     def extra_checks(self, ctx):
         """F17 demonstration on the real code: after a channel switch text of CC1 lands in CC2's memory"""
         res = []
         if ctx["hcmd"] is None:
             return res
+        res += self.projection_probe(ctx)
         def c2(name, f=0, k=0):
             l = "cc %d %02x%02x" % (f, par(0x14 | (k << 3)), par(MISC[name]))
             return [l, l] if f == 0 else [l]
